@@ -4,6 +4,9 @@ import Gv.Model.Seq
 import Gv.Model.Sites
 import Gv.Model.Clean
 import Gv.Model.BagHist
+import Gv.Model.Mask
+import Gv.Model.Compress
+import Gv.Oracle.Mask
 /-!
 Command-line glue (flag parsing, defaults, conversions, readers and writers) checked against the library
 models: `cli_lib <stdin FASTA, | = newline> <argv…>` — what the built binary must print for a command
@@ -66,6 +69,36 @@ def expected (rows : Rows) (argv : List String) : Option String :=
       let r := removeCharacterSites (cutoffTest num den) rows L 1 cs ends (flag fl "--ignore-case")
         (flag fl "--ignore-gaps") (flag fl "--ignore-n") (flag fl "--reverse")
       some (ok r.rows)
+  | "mask" :: "-s" :: st :: "-l" :: ln :: fl => do
+    -- cmd/mask.go without --ref-seq / --unique / --pos: Mask("", start, length, replace, nogap, false)
+    let st ← parseInt? st; let ln ← parseInt? ln
+    let mr := MaskOps.decRep ((opt fl "--replace").getD "AMBIG")
+    match mask rows L 1 "" st ln mr (flag fl "--no-gaps") false with
+    | some r => some (ok r)
+    | none => some bad
+  | "mask" :: "--unique" :: fl => do
+    let mo ← parseInt? ((opt fl "--at-most").getD "1")
+    let mr := MaskOps.decRep ((opt fl "--replace").getD "AMBIG")
+    match maskOccurences rows L 1 "" mo mr with
+    | some r => some (ok r)
+    | none => some bad
+  | "dedup" :: fl =>
+    let b0 := (addAllStop (newAlign 1) rows).1
+    let r := deduplicate (flag fl "--n-as-gap") b0
+    some (ok (pairs r.1))
+  | ["compress"] =>
+    if rows.isEmpty then none else
+    let (rs, _, _) := compress rows L
+    some (ok rs)
+  | ["sort"] => some (ok (pairs (sortRows (addAllStop (newAlign 1) rows).1)))
+  | "translate" :: fl => do
+    -- cmd/translate.go on an alignment, one frame: every row translated from `phase`
+    let ph ← ((opt fl "--phase").getD "0").toNat?
+    let code : Int := match (opt fl "--genetic-code").getD "standard" with
+      | "standard" => 0 | "mitov" => 1 | "mitoi" => 2 | _ => 99
+    match rows.mapM (fun r => (translateSeq ph code r.2).map fun p => (r.1, p)) with
+    | some r => some (ok r)
+    | none => some bad
   | _ => none
 
 def handle : Handler := fun op args impl =>
